@@ -18,7 +18,9 @@
      cget <s> | ccopy <s> | clist           built-in crystal array: lookup (a copy, released with Crystal_Free), MakeCopy+Free, names list
      ainit <n> | aadd <s> <newname> | aread <path> | aget <s> | alist | afree      one user crystal array at a time
      err <k>                                xrl_error object life cycles (set / propagate / clear)
-   Answer:  `<rc> d=<live blocks after the operation and its releases minus before> e=<0|1 error object was set>` */
+   A line prefixed `N:` runs the same operation WITHOUT an error slot.
+   Answer:  `<rc> d=<live blocks after the operation and its releases minus before> e=<0|1 error object was set> c=<error code|-1> m=<message length> v=<x + bits of the numeric result | ->`
+   (rc: 1/0 = non-NULL / NULL for constructors, value != 0 for numeric functions, count for lists) */
 #include "config.h"
 #include <stdio.h>
 #include <stdlib.h>
@@ -62,7 +64,9 @@ static cp2 F2[] = { DCS_Rayl_CP, DCS_Compt_CP, DCSb_Rayl_CP, DCSb_Compt_CP };
 static cp3 F3[] = { DCSP_Rayl_CP, DCSP_Compt_CP, DCSPb_Rayl_CP, DCSPb_Compt_CP };
 
 static void free_list(char **l, int n) { if (!l) return; for (int i = 0; i < n; i++) xrlFree(l[i]); xrlFree(l); }
-static int fin(xrl_error **e) { int had = *e != NULL; if (*e) xrl_clear_error(e); return had; }
+static int ecode = -1; static long emlen = 0;
+static int fin(xrl_error **e) { int had = *e != NULL; ecode = -1; emlen = 0; if (*e) { ecode = (int)(*e)->code; emlen = (*e)->message ? (long)strlen((*e)->message) : -1; xrl_clear_error(e); } return had; }
+static void tail(int isnum, double val) { uint64_t b; memcpy(&b, &val, 8); printf(" c=%d m=%ld v=%s%016llx\n", ecode, emlen, isnum ? "x" : "-", (unsigned long long)(isnum ? b : 0)); }
 
 int main(void) {
   static char line[1 << 16], b1[1 << 16], b2[1 << 12];
@@ -73,63 +77,66 @@ int main(void) {
     int nt = 0;
     for (char *p = strtok(line, " \n"); p && nt < 8; p = strtok(NULL, " \n")) tok[nt++] = p;
     if (nt == 0) continue;
-    xrl_error *e = NULL; long base = live_blocks; long rc = 0; int had = 0;
+    xrl_error *e = NULL; long base = live_blocks; long rc = 0; int had = 0; double val = 0.0; int isnum = 0;
     const char *op = tok[0];
-    if (!strcmp(op, "cp") && nt == 2) { struct compoundData *cd = CompoundParser(unesc(tok[1], b1), &e); rc = cd != NULL; if (cd) FreeCompoundData(cd); }
-    else if (!strcmp(op, "nistn") && nt == 2) { struct compoundDataNIST *c = GetCompoundDataNISTByName(unesc(tok[1], b1), &e); rc = c != NULL; if (c) FreeCompoundDataNIST(c); }
-    else if (!strcmp(op, "nisti") && nt == 2) { struct compoundDataNIST *c = GetCompoundDataNISTByIndex(atoi(tok[1]), &e); rc = c != NULL; if (c) FreeCompoundDataNIST(c); }
-    else if (!strcmp(op, "nistl")) { int n = 0; char **l = GetCompoundDataNISTList(&n, &e); rc = n; free_list(l, n); }
-    else if (!strcmp(op, "radn") && nt == 2) { struct radioNuclideData *c = GetRadioNuclideDataByName(unesc(tok[1], b1), &e); rc = c != NULL; if (c) FreeRadioNuclideData(c); }
-    else if (!strcmp(op, "radi") && nt == 2) { struct radioNuclideData *c = GetRadioNuclideDataByIndex(atoi(tok[1]), &e); rc = c != NULL; if (c) FreeRadioNuclideData(c); }
-    else if (!strcmp(op, "radl")) { int n = 0; char **l = GetRadioNuclideDataList(&n, &e); rc = n; free_list(l, n); }
-    else if (!strcmp(op, "z2s") && nt == 2) { char *s = AtomicNumberToSymbol(atoi(tok[1]), &e); rc = s != NULL; if (s) xrlFree(s); }
-    else if (!strcmp(op, "s2z") && nt == 2) { rc = SymbolToAtomicNumber(unesc(tok[1], b1), &e); }
+    xrl_error **ep = &e;
+    if (op[0] == 'N' && op[1] == ':') { ep = NULL; op += 2; }      /* the same operation without an error slot */
+    if (!strcmp(op, "cp") && nt == 2) { struct compoundData *cd = CompoundParser(unesc(tok[1], b1), ep); rc = cd != NULL; if (cd) FreeCompoundData(cd); }
+    else if (!strcmp(op, "nistn") && nt == 2) { struct compoundDataNIST *c = GetCompoundDataNISTByName(unesc(tok[1], b1), ep); rc = c != NULL; if (c) FreeCompoundDataNIST(c); }
+    else if (!strcmp(op, "nisti") && nt == 2) { struct compoundDataNIST *c = GetCompoundDataNISTByIndex(atoi(tok[1]), ep); rc = c != NULL; if (c) FreeCompoundDataNIST(c); }
+    else if (!strcmp(op, "nistl")) { int n = 0; char **l = GetCompoundDataNISTList(&n, ep); rc = n; free_list(l, n); }
+    else if (!strcmp(op, "radn") && nt == 2) { struct radioNuclideData *c = GetRadioNuclideDataByName(unesc(tok[1], b1), ep); rc = c != NULL; if (c) FreeRadioNuclideData(c); }
+    else if (!strcmp(op, "radi") && nt == 2) { struct radioNuclideData *c = GetRadioNuclideDataByIndex(atoi(tok[1]), ep); rc = c != NULL; if (c) FreeRadioNuclideData(c); }
+    else if (!strcmp(op, "radl")) { int n = 0; char **l = GetRadioNuclideDataList(&n, ep); rc = n; free_list(l, n); }
+    else if (!strcmp(op, "z2s") && nt == 2) { char *s = AtomicNumberToSymbol(atoi(tok[1]), ep); rc = s != NULL; if (s) xrlFree(s); }
+    else if (!strcmp(op, "s2z") && nt == 2) { rc = SymbolToAtomicNumber(unesc(tok[1], b1), ep); }
     else if (!strcmp(op, "cscp") && nt == 6) {
       int k = atoi(tok[1]); const char *s = unesc(tok[2], b1); double E = dbl(tok[3]), th = dbl(tok[4]), ph = dbl(tok[5]); double v;
-      if (k < 13) v = F1[k](s, E, &e); else if (k < 17) v = F2[k - 13](s, E, th, &e); else v = F3[(k - 17) % 4](s, E, th, ph, &e);
-      rc = v != 0.0;
+      if (k < 13) v = F1[k](s, E, ep); else if (k < 17) v = F2[k - 13](s, E, th, ep); else v = F3[(k - 17) % 4](s, E, th, ph, ep);
+      rc = v != 0.0; val = v; isnum = 1;
     }
     else if (!strcmp(op, "ri") && nt == 5) {
       int k = atoi(tok[1]); const char *s = unesc(tok[2], b1); double E = dbl(tok[3]), rho = dbl(tok[4]);
-      if (k == 0) rc = Refractive_Index_Re(s, E, rho, &e) != 0.0; else if (k == 1) rc = Refractive_Index_Im(s, E, rho, &e) != 0.0;
-      else { xrlComplex z = Refractive_Index(s, E, rho, &e); rc = z.re != 0.0 || z.im != 0.0; }
+      if (k == 0) { val = Refractive_Index_Re(s, E, rho, ep); rc = val != 0.0; } else if (k == 1) { val = Refractive_Index_Im(s, E, rho, ep); rc = val != 0.0; }
+      else { xrlComplex z = Refractive_Index(s, E, rho, ep); rc = z.re != 0.0 || z.im != 0.0; val = z.re + z.im; }
+      isnum = 1;
     }
-    else if (!strcmp(op, "cget") && nt == 2) { Crystal_Struct *c = Crystal_GetCrystal(unesc(tok[1], b1), NULL, &e); rc = c != NULL; Crystal_Free(c); }
+    else if (!strcmp(op, "cget") && nt == 2) { Crystal_Struct *c = Crystal_GetCrystal(unesc(tok[1], b1), NULL, ep); rc = c != NULL; Crystal_Free(c); }
     else if (!strcmp(op, "ccopy") && nt == 2) {
-      Crystal_Struct *c = Crystal_GetCrystal(unesc(tok[1], b1), NULL, &e);
-      if (c) { Crystal_Struct *d = Crystal_MakeCopy(c, &e); rc = d != NULL; Crystal_Free(d); Crystal_Free(c); }
+      Crystal_Struct *c = Crystal_GetCrystal(unesc(tok[1], b1), NULL, ep);
+      if (c) { Crystal_Struct *d = Crystal_MakeCopy(c, ep); rc = d != NULL; Crystal_Free(d); Crystal_Free(c); }
     }
-    else if (!strcmp(op, "clist")) { int n = 0; char **l = Crystal_GetCrystalsList(NULL, &n, &e); rc = n; free_list(l, n); }
+    else if (!strcmp(op, "clist")) { int n = 0; char **l = Crystal_GetCrystalsList(NULL, &n, ep); rc = n; free_list(l, n); }
     else if (!strcmp(op, "ainit") && nt == 2) {
       if (arr) { printf("bad-op\n"); continue; }
-      arr_base = live_blocks; arr = Crystal_ArrayInit(atoi(tok[1]), &e); rc = arr != NULL;
-      had = fin(&e); printf("%ld d=%s e=%d\n", rc, "open", had); continue;
+      arr_base = live_blocks; arr = Crystal_ArrayInit(atoi(tok[1]), ep); rc = arr != NULL;
+      had = fin(&e); printf("%ld d=%s e=%d", rc, "open", had); tail(0, 0.0); continue;
     }
     else if (!strcmp(op, "aadd") && nt == 3) {
       if (!arr) { printf("bad-op\n"); continue; }
-      Crystal_Struct *c = Crystal_GetCrystal(unesc(tok[1], b1), NULL, &e);
+      Crystal_Struct *c = Crystal_GetCrystal(unesc(tok[1], b1), NULL, ep);
       if (c) {
-        Crystal_Struct *d = Crystal_MakeCopy(c, &e);
-        if (d) { free(d->name); d->name = strdup(unesc(tok[2], b2)); rc = Crystal_AddCrystal(d, arr, &e); Crystal_Free(d); }
+        Crystal_Struct *d = Crystal_MakeCopy(c, ep);
+        if (d) { free(d->name); d->name = strdup(unesc(tok[2], b2)); rc = Crystal_AddCrystal(d, arr, ep); Crystal_Free(d); }
         Crystal_Free(c);
       }
-      had = fin(&e); printf("%ld d=%s e=%d\n", rc, "open", had); continue;
+      had = fin(&e); printf("%ld d=%s e=%d", rc, "open", had); tail(0, 0.0); continue;
     }
     else if (!strcmp(op, "aread") && nt == 2) {
       if (!arr) { printf("bad-op\n"); continue; }
-      rc = Crystal_ReadFile(unesc(tok[1], b1), arr, &e);
-      had = fin(&e); printf("%ld d=%s e=%d\n", rc, "open", had); continue;
+      rc = Crystal_ReadFile(unesc(tok[1], b1), arr, ep);
+      had = fin(&e); printf("%ld d=%s e=%d", rc, "open", had); tail(0, 0.0); continue;
     }
     else if (!strcmp(op, "aget") && nt == 2) {
       if (!arr) { printf("bad-op\n"); continue; }
-      Crystal_Struct *c = Crystal_GetCrystal(unesc(tok[1], b1), arr, &e); rc = c != NULL;
-      if (c) { Crystal_Struct *d = Crystal_MakeCopy(c, &e); Crystal_Free(d); Crystal_Free(c); }
-      had = fin(&e); printf("%ld d=%s e=%d\n", rc, "open", had); continue;
+      Crystal_Struct *c = Crystal_GetCrystal(unesc(tok[1], b1), arr, ep); rc = c != NULL;
+      if (c) { Crystal_Struct *d = Crystal_MakeCopy(c, ep); Crystal_Free(d); Crystal_Free(c); }
+      had = fin(&e); printf("%ld d=%s e=%d", rc, "open", had); tail(0, 0.0); continue;
     }
     else if (!strcmp(op, "alist")) {
       if (!arr) { printf("bad-op\n"); continue; }
-      int n = 0; char **l = Crystal_GetCrystalsList(arr, &n, &e); rc = n; free_list(l, n);
-      had = fin(&e); printf("%ld d=%s e=%d\n", rc, "open", had); continue;
+      int n = 0; char **l = Crystal_GetCrystalsList(arr, &n, ep); rc = n; free_list(l, n);
+      had = fin(&e); printf("%ld d=%s e=%d", rc, "open", had); tail(0, 0.0); continue;
     }
     else if (!strcmp(op, "afree")) {
       if (!arr) { printf("bad-op\n"); continue; }
@@ -148,8 +155,9 @@ int main(void) {
     }
     else { printf("bad-op\n"); continue; }
     had = fin(&e);
-    if (arr) printf("%ld d=%s e=%d\n", rc, "open", had);       /* inside a user-array bracket the balance is taken at afree */
-    else printf("%ld d=%ld e=%d\n", rc, live_blocks - base, had);
+    if (arr) printf("%ld d=%s e=%d", rc, "open", had);       /* inside a user-array bracket the balance is taken at afree */
+    else printf("%ld d=%ld e=%d", rc, live_blocks - base, had);
+    tail(isnum, val);
   }
   if (arr) { Crystal_ArrayFree(arr); printf("0 d=%ld e=0\n", live_blocks - arr_base); }
   return 0;
